@@ -2,6 +2,7 @@
 # usage: tools/tryz.sh <patch.diff> <ID> [<ID>...]  -- apply to the scratch worktree /var/tmp/zkmut, run the checks there (ZK_REPO), undo.
 P=$(realpath "$1"); shift
 Z=${Z:-/var/tmp/zkmut}
+[ -d "$Z" ] || git -C /repo worktree add -q --detach "$Z" HEAD || exit 3
 git -C $Z checkout -q -- . ; git -C $Z apply "$P" || { echo "patch does not apply"; exit 3; }
 for id in "$@"; do
   ZK_REPO=$Z /verif/check "$id" 2>&1 | grep -E "^(VIOLATION|KNOWN-FINDING|  |C[0-9]+:)" | cut -c1-${W:-400}
